@@ -311,7 +311,57 @@ def rule_s4(ctx):
     ctx.check(ok, "S4-open-vs-empty", f"{DT}:DerivationTree.from_parse_tree", "leaf keeps None / []", site(fp), "leaves must be rebuilt with the children value as read (None stays None, [] stays [])", "leaf built from the value read")
 
 
+def rule_s6(ctx, prefix="S6"):
+    """smt_expr_to_str: (a) bound variables are resolved through a De Bruijn stack - the binders of a quantifier are PREPENDED one by one (index 0 = last binder of
+    the innermost quantifier); (b) a string literal is printed as Z3's own as_string() text with only the quote escaped and `\\u{}` normalised - Z3's \\u{..}
+    escapes (which also protect a literal backslash, \\u{5c}) are not decoded on the way out."""
+    f = ctx.repo.func(Z3H, "smt_expr_to_str", f"C17.{prefix}")
+    c = f"{Z3H}:smt_expr_to_str"
+    qb = next((n for n in f.body if isinstance(n, ast.If) and src(n.test) == "isinstance(f, z3.QuantifierRef)"), None)
+    if qb is None:
+        raise Unrecognised(f"C17.{prefix}", c, "quantifier branch not found")
+    pushes = [a for a in ast.walk(qb) if isinstance(a, ast.Assign) and src(a.targets[0]) == "qfd_var_stack"]
+    if len(pushes) != 1:
+        raise Unrecognised(f"C17.{prefix}", c, f"expected one update of qfd_var_stack in the quantifier branch (found {len(pushes)})")
+    v = pushes[0].value
+    in_loop = any(isinstance(p_, ast.For) and src(p_.iter) == "range(f.num_vars())" for p_ in _ancs(pushes[0]))
+    prepend = isinstance(v, ast.BinOp) and isinstance(v.op, ast.Add) and src(v.right) == "qfd_var_stack" and isinstance(v.left, ast.Tuple) and len(v.left.elts) == 1 and src(v.left.elts[0]) == "f.var_name(var_idx)"
+    append = isinstance(v, ast.BinOp) and isinstance(v.op, ast.Add) and src(v.left) == "qfd_var_stack"
+    if prepend and in_loop:
+        ctx.ok(f"{prefix}-de-bruijn", c, "binders prepended one by one", site(pushes[0]), "(f.var_name(var_idx),) + qfd_var_stack inside the loop over the binders")
+    elif append:
+        ctx.viol(f"{prefix}-de-bruijn", c, "binders prepended one by one", site(pushes[0]),
+                 f"the quantifier's variable names are appended to the stack (`{src(v)[:60]}`): z3.get_var_index counts from the innermost binder, so under a nested quantifier index 0 resolves to a "
+                 "variable of the OUTER quantifier - `exists a. forall b. prefixof(a, b)` is printed (and unpickled) as prefixof(b, a)")
+    else:
+        raise Unrecognised(f"C17.{prefix}", c, f"stack update `{src(pushes[0])[:70]}` not understood")
+    vr = next((n for n in f.body if isinstance(n, ast.If) and src(n.test) == "z3.is_var(f)"), None)
+    ok = vr is not None and any(isinstance(r, ast.Return) and src(r.value) == "qfd_var_stack[idx]" for r in ast.walk(vr)) and any(isinstance(a, ast.Assign) and src(a.value) == "z3.get_var_index(f)" for a in ast.walk(vr))
+    ctx.check(ok, f"{prefix}-de-bruijn", c, "bound variable = stack[z3.get_var_index(f)]", site(f), "variable lookup changed", "qfd_var_stack[idx]")
+    sb = next((n for n in f.body if isinstance(n, ast.If) and src(n.test) == "z3.is_string_value(f)"), None)
+    if sb is None:
+        raise Unrecognised(f"C17.{prefix}", c, "string literal branch not found")
+    decoders = [x for x in ast.walk(sb) if isinstance(x, ast.Call) and call_name(x) in ("chr", "smt_string_val_to_string") or (isinstance(x, ast.Call) and call_name(x) == "re.sub")]
+    names_called = {x.id for x in ast.walk(sb) if isinstance(x, ast.Name)}
+    helper_decodes = any(isinstance(d, ast.FunctionDef) and d.name in names_called and any(isinstance(y, ast.Call) and call_name(y) == "chr" for y in ast.walk(d)) for d in ast.walk(sb))
+    ctx.check(not decoders and not helper_decodes, f"{prefix}-literal-escapes-kept", c, "Z3's \\u{..} escapes are printed as they are", site(sb),
+              "the literal branch decodes \\u{..} escapes of as_string() back into characters: Z3 writes a literal backslash that precedes 'u{' as \\u{5c}, so decoding turns the six characters "
+              "`\\u{e4}` of a literal into an escape that the reader interprets as 'ä' - the constraint changes silently on a pickle / unparse round trip", "only the quote is escaped and \\u{} normalised")
+
+
+def _ancs(n):
+    cur = getattr(n, "_parent", None)
+    while cur is not None:
+        yield cur
+        cur = getattr(cur, "_parent", None)
+
+
 def run(ctx) -> str:
+    ctx.guarded("S6", lambda: rule_s6(ctx))
+    from . import c16
+
+    # a new per-instance field of DerivationTree must be classified (identity / memo, stripped by the serialisers or not): shared with C16.O1
+    ctx.guarded("S7", lambda: c16.rule_o1(ctx))
     ctx.guarded("S1", lambda: rule_s1(ctx))
     ctx.guarded("S2", lambda: rule_s2(ctx))
     ctx.guarded("S3", lambda: rule_s3(ctx))
